@@ -233,6 +233,8 @@ def c17(g, tier):
                 for f in (0, 1):
                     ops.append({"op": "write_into", "rel": rel, "len": g.r.choice([0, 5, 64]), "fill": f})
         yield ops
+    for sess in midsize_sessions(g, "C17/mid", ["sdes", "nack", "fir"]):
+        yield [o for o in sess if o["op"] not in ("parse", "write_into")] + [{"op": "write_twice", "rel": 5, "len": 64}]
     for i in range(200 if tier == "quick" else 3000):
         if g.r.random() < 0.5:
             item = g.item_calls(hist=False, bad=g.r.random() < 0.1, vlen=g.r.randrange(0, 8))
@@ -318,6 +320,14 @@ def c16(g, tier):
 
 def c20(g, tier):
     n = 3000 if tier == "quick" else 50000
+    r0 = g.r
+    for i in range(60 if tier == "quick" else 1500):
+        k = r0.randrange(18, 64)
+        adds = [[g._u32(), r0.randrange(256)] for _ in range(k)]
+        for _ in range(r0.randrange(1, 4)):
+            adds.insert(r0.randrange(len(adds) + 1), [r0.choice(adds)[0], r0.randrange(256)])   # re-add an SSRC somewhere
+        calls = [{"c": "new", "fci": {"f": "fir", "adds": adds}, "owned": r0.random() < 0.5}]
+        yield build_session(f"C20/firlong/{i}", "pfb", calls, rt=True)
     for i in range(n):
         r = g.r
         if r.random() < 0.1:
@@ -514,12 +524,17 @@ def compound_bytes_sessions(g, n, sidp):
         [0x80, 200, 0, 0],                                   # SR header only
         [0x81, 202, 0, 2, 0, 0, 0, 1, 1, 1, 65, 0],          # SDES ok
         [0x81, 205, 0, 3, 0, 0, 0, 1, 0, 0, 0, 2, 0, 5, 0, 1],  # NACK
+        [0x81, 202, 0, 2, 0, 0, 0, 1, 8, 1, 5, 0],           # SDES, PRIV prefix overruns the item
+        [0x81, 202, 0, 2, 0, 0, 0, 1, 8, 0, 0, 0],           # SDES, PRIV item without a prefix length
+        [0xa0, 203, 0, 1, 0, 0, 0, 4],                       # BYE: header and padding only
+        [0x80, 204, 0, 2, 0, 0, 0, 1, 65, 66, 67, 68],       # APP
     ]
     for i in range(n):
-        k = r.randrange(0, 5)
+        k = r.randrange(0, 5) if r.random() < 0.93 else r.choice([16, 31, 32, 33, 40, 64, 70])   # longer chains too
         b = []
+        good = [T[0], T[1], T[2], T[5], T[10], T[11], T[14], T[15]]
         for _ in range(k):
-            b += r.choice(T)
+            b += r.choice(T if k < 8 else good)
         m = r.random()
         if m < 0.15:
             b += g.bytes_(r.randrange(1, 4))
@@ -579,7 +594,7 @@ def noise(g, n, sidp):
         yield ops
 
 
-def fci_sessions(g, n, sidp):
+def fci_sessions(g, n, sidp, op="parse"):
     """feedback packets with arbitrary FCI bodies, all formats, both kinds (C15), and direct FCI parsers"""
     r = g.r
     for i in range(n):
@@ -594,15 +609,27 @@ def fci_sessions(g, n, sidp):
             fmt = r.choice([15, 15, fmt])
             ident = r.choice([[0x52, 0x45, 0x4d, 0x42], [0x52, 0x45, 0x4d, 0x42], [0x41, 0x46, 0x42, 0x20], [0x54, 0x4d, 0x4d, 0x42]])
             fci = ident + g.bytes_(4 * r.choice([0, 0, 1, 2, 3]))
+            if len(fci) > 4:
+                fci[4] = r.choice([0, 1, 2, 3, 255, fci[4]])      # a count-like byte right after the identifier
         pad = 0 if r.random() < 0.7 else r.choice([4, 8, 12])
         total = 12 + len(fci) + pad
         b = hdr(2, pad > 0, fmt, PT[kind], total // 4 - 1) + g.u32bytes() + g.u32bytes() + fci + ([0] * (pad - 1) + [pad] if pad else [])
-        ops = [reset(f"{sidp}/{i}"), {"op": "parse", "kind": kind, "b": b}]
+        ops = [reset(f"{sidp}/{i}"), ({"op": "parse", "kind": kind, "b": b} if op == "parse" else {"op": "parse_all", "b": b})]
         if r.random() < 0.5:
             f = r.choice(["nack", "fir", "sli", "rpsi", "pli"])
             region = fci if r.random() < 0.6 else g.bytes_(r.randrange(0, 30))
             ops.append({"op": "parse", "kind": f, "b": region})
         yield ops
+
+
+def nack_many(g, sidp):
+    """one NACK whose words describe 65536 and more sequence numbers in total"""
+    for nw in (3855, 3856, 4100):
+        b = []
+        for i in range(nw):
+            pid = (17 * i) % 65536
+            b += [pid >> 8, pid & 0xff, 0xff, 0xff]
+        yield [reset(f"{sidp}/{nw}"), {"op": "parse", "kind": "nack", "b": b}]
 
 
 def nack_iter_sessions(g, n, sidp):
@@ -666,8 +693,9 @@ def c01(g, tier):
     yield from compound_image_sessions(g, 200 if q else 5000, "C01/ci")
     yield from fci_sessions(g, 600 if q else 20000, "C01/fci")
     yield from nack_iter_sessions(g, 100 if q else 3000, "C01/nit")
-    yield from big_inputs(g, "C01/big", 1 if q else 3)
+    yield from big_inputs(g, "C01/big", 2 if q else 4)
     yield from midsize_sessions(g, "C01/mid", ["sdes", "nack", "fir"])
+    yield from nack_many(g, "C01/many")
     yield from item_type_sweep(g, "C01/types")
     yield from concat_sessions(g, 100 if q else 3000, "C01/concat")
 
@@ -747,7 +775,7 @@ def c11(g, tier):
     q = tier == "quick"
     yield from compound_bytes_sessions(g, 3000 if q else 80000, "C11/cb")
     yield from compound_image_sessions(g, 600 if q else 15000, "C11/ci")
-    yield from big_inputs(g, "C11/big", 1 if q else 2)
+    yield from big_inputs(g, "C11/big", 2 if q else 4)
 
 
 def c12(g, tier):
@@ -758,6 +786,7 @@ def c12(g, tier):
         k, calls = g.builder(small=True)
         yield build_session(f"C12/img/{i}", k, calls, rt=False, extra=[{"op": "parse_all", "src": "image"}])
     yield from concat_sessions(g, 300 if q else 8000, "C12/concat")
+    yield from fci_sessions(g, 600 if q else 15000, "C12/fci", op="parse_all")
 
 
 def c13(g, tier):
@@ -770,11 +799,40 @@ def c13(g, tier):
         ps = pads if q else g.r.sample(pads, 8)
         yield build_session(f"C13/{i}", k, calls, rt=False,
                             extra=[{"op": "parse_pad", "kind": k, "src": "image", "n": n} for n in ps])
+    yield from c13_literals(g, tier)
+
+
+def c13_literals(g, tier):
+    """well-formed unpadded packets that no builder of the crate emits, padded by the C13 pair operation"""
+    r = g.r
+    pads = [4, 8, 12, 252]
+    i = 0
+    for kind in ("sr", "rr"):
+        for cnt in (0, 1, 2):
+            for ext in (0, 4, 8, 24, 28, 52):         # profile-specific extension words after the report blocks
+                body = MINLEN[kind] - 4 + 24 * cnt + ext
+                b = hdr(2, False, cnt, PT[kind], (4 + body) // 4 - 1) + [r.randrange(256) for _ in range(body)]
+                yield [reset(f"C13/lit/{kind}/{cnt}/{ext}")] + [{"op": "parse_pad", "kind": kind, "b": b, "n": n} for n in pads]
+    # BYE: a reason that is present but empty, reasons of every short length, no reason
+    for cnt in (0, 1, 2):
+        for reason in ([], [0, 0, 0, 0], [1, 65, 0, 0], [2, 65, 66, 0], [3, 65, 66, 67], [4, 65, 66, 67, 68, 0, 0, 0], [0, 0, 0, 0, 0, 0, 0, 0]):
+            b = hdr(2, False, cnt, 203, (4 + 4 * cnt + len(reason)) // 4 - 1) + [r.randrange(256) for _ in range(4 * cnt)] + reason
+            yield [reset(f"C13/lit/bye/{cnt}/{len(reason)}/{i}")] + [{"op": "parse_pad", "kind": "bye", "b": b, "n": n} for n in pads]
+            i += 1
+    # APP with and without data; feedback with FCI bodies of every small size
+    for dl in (0, 4, 8):
+        b = hdr(2, False, 3, 204, (12 + dl) // 4 - 1) + [1, 2, 3, 4, 65, 66, 67, 0] + [r.randrange(256) for _ in range(dl)]
+        yield [reset(f"C13/lit/app/{dl}")] + [{"op": "parse_pad", "kind": "app", "b": b, "n": n} for n in pads]
+    # long feedback packets (more than 1024 bytes) with padding
+    for sess in midsize_sessions(g, "C13/mid", ["nack", "fir"]):
+        kind = sess[1]["kind"]
+        yield [o for o in sess if o["op"] != "parse"] + [{"op": "parse_pad", "kind": kind, "src": "image", "n": n} for n in (4, 8, 252)]
 
 
 def c14(g, tier):
     q = tier == "quick"
     r = g.r
+    yield from c14_big(g)
     for i in range(1200 if q else 30000):
         bad = None
         x = r.random()
@@ -789,11 +847,23 @@ def c14(g, tier):
         yield ops
 
 
+def c14_big(g):
+    """compounds whose total size passes 64 KiB (each member well below the per-packet limit)"""
+    rr = {"kind": "rr", "calls": [{"c": "new", "ssrc": g.u32()}], "pb": False}
+    for nbytes in (65500, 65508, 65536, 131072):
+        unk = {"kind": "unk", "calls": [{"c": "new", "type": 77, "data": [], "big": {"rep": 9, "n": nbytes}, "via": "builder"}], "pb": True}
+        app = {"kind": "app", "calls": [{"c": "new", "ssrc": g.u32(), "name": [65]}, {"c": "padding", "v": 4}], "pb": False}
+        calls = [{"c": "new"}, {"c": "add_packet", "v": rr}, {"c": "add_packet", "v": unk}, {"c": "add_packet", "v": app}]
+        yield [reset(f"C14/big/{nbytes}")] + calls_to_ops("compound", calls) + [
+            {"op": "calc_size"}, {"op": "write_into", "rel": 0, "len": 64, "fill": 0}, {"op": "cparse", "src": "image"}] + [{"op": "cnext"}] * 4
+
+
 def c15(g, tier):
     q = tier == "quick"
     yield from fci_sessions(g, 3000 if q else 80000, "C15/fci")
     yield from nack_iter_sessions(g, 400 if q else 10000, "C15/nit")
     yield from midsize_sessions(g, "C15/mid", ["nack", "fir"])
+    yield from nack_many(g, "C15/many")
     # single-word sweeps
     r = g.r
     pids = [0, 1, 0x7fff, 0xffee, 0xffef, 0xfff0, 0xffff]
@@ -840,6 +910,7 @@ def c18(g, tier):
     yield from compound_bytes_sessions(g, 800 if q else 20000, "C18/cb")
     yield from noise(g, 400 if q else 10000, "C18/noise")
     yield from concat_sessions(g, 200 if q else 5000, "C18/concat")
+    yield from fci_sessions(g, 1500 if q else 40000, "C18/fci")
     yield from big_inputs(g, "C18/big", 0)
 
 
